@@ -111,7 +111,8 @@ def shared_statement_object(att, p):
 
 
 # stdlib wrappers that only forward to one primitive at the same cursor: classified as that primitive
-STD_ALIAS = {"std:reorder_stmt_forward": "reorder_stmts", "std:reorder_stmt_backwards": "reorder_stmts"}
+STD_ALIAS = {"std:reorder_stmt_forward": "reorder_stmts", "std:reorder_stmt_backwards": "reorder_stmts",
+             "std:lift_if": "lift_scope", "std:jam_stmt": "add_loop"}
 
 
 def type_exprs(t):
@@ -130,6 +131,16 @@ def iter_in_alloc_shape(loop):
         if isinstance(x, LoopIR.Alloc) and loop.iter in names_read(type_exprs(x.type)):
             return True
     return False
+
+
+def cfg_reads(nodes):
+    LoopIR, T = _mods()
+    return {(x.config.name(), x.field) for r in nodes for x in walk(r) if isinstance(x, LoopIR.ReadConfig)}
+
+
+def cfg_writes(nodes):
+    LoopIR, T = _mods()
+    return {(x.config.name(), x.field) for r in nodes for x in walk(r) if isinstance(x, LoopIR.WriteConfig)}
 
 
 def classify_mismatch(att, p, p2, bad, pj=None, inp=None):
@@ -184,6 +195,44 @@ def _situation(att, p, p2, bad, env):
         pair = _block_nodes(c, 2)
         if isinstance(pair[0], LoopIR.WindowStmt) and pair[0].name in names_read([pair[1]]) | names_written([pair[1]]):
             return "window-definition-moved-after-its-use"
+    if op == "reorder_stmts":
+        pair = _block_nodes(c, 2)
+        if isinstance(pair[0], LoopIR.Alloc) and isinstance(pair[1], LoopIR.WindowStmt) and pair[0].name in names_read([pair[1].rhs]):
+            return "allocation-moved-after-window-of-it"
+    if op == "lift_scope":
+        import exo.API_cursors as C
+        par = c.parent()
+        pn = par._impl._node if not isinstance(par, C.InvalidCursor) else None
+
+        if isinstance(n, LoopIR.If) and isinstance(pn, LoopIR.If) and not n.orelse:
+            if n in pn.body and pn.orelse:
+                return "if-in-if-body:inner-without-else-drops-outer-else"
+            if n in pn.orelse:
+                return "if-in-if-orelse:inner-without-else-drops-outer-body"
+        if isinstance(n, LoopIR.For) and isinstance(pn, LoopIR.If):
+            if cfg_reads([pn.cond]) & cfg_writes(n.body):
+                return "for-in-if:guard-reads-config-written-by-body"
+            if "badLoop" in bad:
+                return "for-in-if:bounds-evaluated-when-guard-false"
+        if isinstance(n, LoopIR.If) and isinstance(pn, LoopIR.For):
+            if cfg_reads([n.cond]) & cfg_writes(n.body + n.orelse):
+                return "if-in-for:guard-reads-config-written-by-body"
+    if op == "fission":
+        # fission of an `if`: no dependence check at all; allocation used only through a window / a top-level reduce
+        import exo.API_cursors as C
+        par = c.parent()
+        pn = par._impl._node if not isinstance(par, C.InvalidCursor) else None
+        if isinstance(pn, LoopIR.If):
+            blk0 = pn.body if n in pn.body else pn.orelse
+            k0 = blk0.index(n) + (1 if a.get("where") == "after" else 0)
+            if cfg_reads([pn.cond]) & cfg_writes(blk0[:k0]):
+                return "if:first-part-writes-config-read-by-guard"
+        if isinstance(pn, LoopIR.If) and "scope" in bad:
+            blk = pn.body if n in pn.body else pn.orelse
+            k = blk.index(n) + (1 if a.get("where") == "after" else 0)
+            pre_defs = {x.name for x in blk[:k] if isinstance(x, LoopIR.Alloc)}
+            if pre_defs:
+                return "if:allocation-in-first-part-used-by-second-only-through-window-or-reduce"
     if op == "specialize":
         if isinstance(n, LoopIR.WindowStmt):
             return "block-defines-window-used-later"
@@ -198,6 +247,18 @@ def _situation(att, p, p2, bad, env):
         if any(x in al for x in names_read(blk) | names_written(blk)) and "scope" in bad:
             return "block-uses-window-variable-that-is-not-passed"
         import exo.API_cursors as C
+        if "assertFail" in bad:
+            # path conditions of enclosing ifs become assertions of the sub-procedure although a statement between the
+            # `if` and the block changed a configuration field the condition reads
+            cur, child = c.parent(), c
+            while isinstance(cur, (C.IfCursor, C.ForCursor)):
+                cn = cur._impl._node
+                if isinstance(cur, C.IfCursor):
+                    sib = cn.body if any(x is child._impl._node for x in cn.body) else cn.orelse
+                    idx = next(i for i, x in enumerate(sib) if x is child._impl._node)
+                    if cfg_reads([cn.cond]) & cfg_writes(sib[:idx]):
+                        return "path-condition-invalidated-by-config-write-before-block"
+                child, cur = cur, cur.parent()
         if "assertFail" in bad and any(isinstance(x, LoopIR.If) and x.orelse for x in blk):
             return "path-condition-taken-from-sibling-if-orelse"
         prev = c.prev()
@@ -291,5 +352,8 @@ def _situation(att, p, p2, bad, env):
         if isinstance(n.rhs, LoopIR.BinOp) and n.name in names_read([n.rhs.rhs]):
             return "second-operand-reads-lhs"
     if op == "resize_dim" and a.get("fold"):
+        if any(isinstance(x, LoopIR.WindowExpr) and x.name == n.name and any(isinstance(w, LoopIR.Interval) for w in x.idx)
+               for st in _rest_of_block(c) for x in walk(st)):
+            return "fold:window-interval-ends-folded-separately"
         return "fold:live-range-wider-than-fold-size"
     return None
